@@ -1,6 +1,7 @@
 (* C02 suite glue: parse a trace line, run the model (GuestMemory defaults over the linear
    find_region), judge the real observation.
-   case:  kind(0 GuestMemoryMmap, 1 MockMem) mode [starts] [lens] op a b c
+   case:  kind(0 GuestMemoryMmap, 1 MockMem, 3 MockMem whose regions provide get_host_address but no
+          get_slice: every query except get_slice) mode [starts] [lens] op a b c
    obs :  k x y z            (op 9 QIter:  k x y z [starts] [lens]) *)
 From VM Require Import Prelude.MachInt Prelude.Outcome Prelude.Tok Impl.Address Impl.Guest Spec.C02.
 
@@ -63,7 +64,8 @@ Definition suite_C02 (inp obs : list tok) : verdict :=
       | Some op' =>
           if (length starts =? length lens)%nat && forallb u64b starts && forallb u64b lens
              && u64b a && u64b b && u64b c
-             && (if is_rop op' then a <? N.of_nat (length starts) else true) then
+             && (if is_rop op' then a <? N.of_nat (length starts) else true)
+             && (if kind =? 3 then negb (op =? 8) else true) then
             let cs := {| c2_mode := if md =? 0 then Debug else Release; c2_L := combine starts lens;
                          c2_op := op'; c2_a := a; c2_b := b; c2_c := c |} in
             let ro := match obs with
